@@ -62,6 +62,8 @@ void add_sim_time_us(uint64_t us);
 // Label of what the code under test is doing right now; copied into the crash report if the
 // process dies (used as the violation key for sanitizer/signal deaths).
 void set_context(const std::string& ctx);
+// errno as the library finds it on entry (set at every set_context with a non-empty label); -1 = leave it alone
+void set_entry_errno(int e);
 
 // ---------------------------------------------------------------- allocation accounting support
 // Engines that balance malloc/free of the code under test (leak oracle) ignore allocations made
